@@ -249,7 +249,17 @@ class Folder:
         if isinstance(s, ast.Expr):
             if isinstance(s.value, ast.Constant):
                 return       # docstring
-            self.expr(s.value)
+            r = self.expr(s.value)
+            if isinstance(r, Opaque) and isinstance(s.value, ast.Call) and not getattr(self, "opaque_unknown", False):
+                # a call the folder does not model, made for its effect only (its value is discarded): when it is handed a mutable value it may well change it
+                # (np.add.at, random.shuffle, ...) - going on as if nothing happened would fold a different program
+                for a in list(s.value.args) + [k.value for k in s.value.keywords]:
+                    try:
+                        av = self.expr(a)
+                    except (Undecidable, Raised):
+                        continue
+                    if isinstance(av, (_np.ndarray, list, dict, set, Rec)):
+                        raise Undecidable(f"call for effect {norm(s.value)[:60]} on a mutable value")
             return
         if isinstance(s, ast.Assign):
             v = self.expr(s.value)
@@ -729,7 +739,7 @@ class Folder:
         if parts[0] in ("np", "numpy") and len(parts) >= 2 and parts[1] in self._NP_FUNCS and isinstance(self.env.get(parts[0], self.resolver(parts[0]) if self.resolver else None), Opaque):
             target = getattr(_np, parts[1], None)
             for extra in parts[2:]:
-                if extra not in ("reduce", "outer", "accumulate"):
+                if extra not in ("reduce", "outer", "accumulate", "at"):
                     return _NO
                 target = getattr(target, extra, None)
             recv = None
